@@ -88,6 +88,9 @@ func NewVoteDB(db youdb.Database, rawSk *ecdsa.PrivateKey) *VoteDB {
 	nextIndex2 := ReadVoteData(v.db, v.addr, NextIndex, 2)
 	updateFn(nextIndex2)
 
+	certificate := ReadVoteData(v.db, v.addr, Certificate, 1)
+	updateFn(certificate)
+
 	return v
 }
 
